@@ -2,18 +2,22 @@ package props
 
 import (
 	"bytes"
+	"context"
 	"fmt"
 	"io"
 	"os"
 	"path/filepath"
 	"strings"
 	"testing"
+	"time"
 
 	mail "github.com/wneessen/go-mail"
 	"pgregory.net/rapid"
 
 	"verif/harness/core"
 	"verif/harness/gen"
+	"verif/harness/mimeread"
+	"verif/harness/refsmtp"
 )
 
 // C11 — rendering is repeatable and all output paths agree.
@@ -26,6 +30,39 @@ type c11Op struct {
 type c11Case struct {
 	Spec gen.MsgSpec `json:"spec"`
 	Ops  []c11Op     `json:"ops"`
+	Sign string      `json:"sign,omitempty"` // "" | ecdsa | rsa: S/MIME-signed message
+}
+
+// c11Canon maps an output to what has to be identical across renders. Unsigned: the bytes. Signed:
+// the top-level fields with the per-render outer boundary masked, plus the signed entity exactly as
+// emitted (the outer boundary and the signature legitimately change per render).
+func c11Canon(out []byte, signed bool) []byte {
+	if !signed {
+		return out
+	}
+	root := mimeread.Parse(out)
+	var buf bytes.Buffer
+	b := root.Params["boundary"]
+	for _, f := range root.Fields {
+		v := f.Raw
+		if b != "" {
+			v = strings.ReplaceAll(v, b, "<outer-boundary>")
+		}
+		fmt.Fprintf(&buf, "%s: %s\r\n", f.Name, v)
+	}
+	if len(root.Children) != 2 {
+		fmt.Fprintf(&buf, "<%d children>", len(root.Children))
+		return buf.Bytes()
+	}
+	buf.WriteString("<signed entity>\r\n")
+	buf.Write(root.Children[0].Raw)
+	return buf.Bytes()
+}
+
+// c11Transport is what DATA does to a rendering: bare LF becomes CRLF (textproto's dot-writer) and a
+// final CRLF is added when missing. Send is compared with the first render modulo exactly this.
+func c11Transport(b []byte) []byte {
+	return normDATA(b)
 }
 
 func c11Run(c c11Case) []*core.Violation {
@@ -36,11 +73,30 @@ func c11Run(c c11Case) []*core.Violation {
 		return nil
 	}
 	m := b.Msg
+	signed := c.Sign != ""
+	if signed {
+		chain := signingChain(c.Sign, false)
+		if err := m.SignWithKeypair(chain.Key, chain.Leaf, nil); err != nil {
+			return []*core.Violation{core.V("HARNESS-sign", "%v", err)}
+		}
+	}
 	var ref []byte
 	refOp := ""
+	var sendDialer *refsmtp.Dialer
+	var sendClient *mail.Client
+	defer func() {
+		if sendDialer != nil {
+			if sendClient != nil {
+				_ = sendClient.Close()
+			}
+			sendDialer.Shutdown()
+		}
+	}()
 	var rd *mail.Reader
 	paths := map[string]bool{}
 	failed := false
+	nsent := 0
+	viaSend := false
 	for i, op := range c.Ops {
 		var out []byte
 		var rerr error
@@ -87,6 +143,43 @@ func c11Run(c c11Case) []*core.Violation {
 			if p != "" {
 				_ = os.Remove(p)
 			}
+		case "send":
+			if sendDialer == nil {
+				srv := refsmtp.NewServer(refsmtp.Script{Caps: []string{"8BITMIME", "SMTPUTF8"}, NoGreetProbe: true})
+				sendDialer = &refsmtp.Dialer{Srv: srv}
+				cfg := smtpCfg{TLS: "none"}
+				cl, cerr := mail.NewClient(refHost, cfg.options(sendDialer)...)
+				if cerr != nil {
+					return []*core.Violation{core.V("HARNESS-newclient", "%v", cerr)}
+				}
+				if derr := cl.DialWithContext(context.Background()); derr != nil {
+					return []*core.Violation{core.V("HARNESS-dial", "%v", derr)}
+				}
+				sendClient = cl
+			}
+			r := watchdog(20*time.Second, sendDialer, func() error { return sendClient.Send(m) })
+			if r.TimedOut || r.Panic != nil {
+				return []*core.Violation{core.V("HARNESS-send", "send op: timed out=%v panic=%v", r.TimedOut, r.Panic)}
+			}
+			rerr = r.Err
+			if rerr == nil {
+				// the server goroutine appends the transaction before it answers end-of-data
+				sess := sendDialer.Sessions[0]
+				nsent++
+				out = nil
+				deadline := time.Now().Add(2 * time.Second)
+				for time.Now().Before(deadline) {
+					if cs := sessCommits(sess); len(cs) >= nsent {
+						out = cs[nsent-1]
+						break
+					}
+					time.Sleep(time.Millisecond)
+				}
+				if out == nil {
+					return []*core.Violation{core.V("HARNESS-send", "no commit visible after a successful Send")}
+				}
+				viaSend = true
+			}
 		case "failsink":
 			expectFail = true
 			sink := &faultSink{limit: op.K, partial: op.K%2 == 0}
@@ -118,12 +211,26 @@ func c11Run(c c11Case) []*core.Violation {
 			return []*core.Violation{core.V("render-error", "op %d (%s) failed on a healthy destination: %v (failed render before: %v)", i, op.Kind, rerr, failed)}
 		}
 		paths[op.Kind] = true
+		out = c11Canon(out, signed)
 		if ref == nil {
+			if viaSend {
+				// a transmitted copy cannot serve as the reference (transport normalisation is lossy)
+				viaSend = false
+				continue
+			}
 			ref = out
 			refOp = fmt.Sprintf("op %d (%s)", i, op.Kind)
 			continue
 		}
-		if !bytes.Equal(ref, out) {
+		want := ref
+		if viaSend {
+			viaSend = false
+			if !signed {
+				want = c11Transport(ref)
+			}
+		}
+		if !bytes.Equal(want, out) {
+			ref := want
 			k := 0
 			for k < len(ref) && k < len(out) && ref[k] == out[k] {
 				k++
@@ -168,6 +275,13 @@ func c11Gen(t *rapid.T) c11Case {
 		PartEncs: []string{"", "", "quoted-printable", "base64", "8bit", "7bit"}, FileEncs: []string{"", "base64", "8bit", "7bit", "quoted-printable"},
 		Descriptions: true, Chunking: true,
 	}
+	sign := ""
+	if rapid.IntRange(0, 4).Draw(t, "signed") == 0 {
+		sign = rapid.SampledFrom([]string{"ecdsa", "ecdsa", "rsa"}).Draw(t, "signkey")
+		o.CRLFOnly = true // canonical content, so that DATA only adds the final CRLF outside the signed entity
+		o.FileEncs = []string{"", "base64", "8bit"}
+		o.PartEncs = []string{"", "", "quoted-printable", "base64", "8bit"}
+	}
 	spec := gen.Program(t, o)
 	spec.FixedDate = false // Date and Message-ID are generated on first use
 	nPre := rapid.IntRange(0, 3).Draw(t, "npreformatted")
@@ -178,10 +292,10 @@ func c11Gen(t *rapid.T) c11Case {
 	for i := 0; i < nGen; i++ {
 		spec.Headers = append(spec.Headers, gen.HeaderSpec{Name: fmt.Sprintf("X-Gen-%d", i), Values: []string{fmt.Sprintf("generic value %d", i)}})
 	}
-	c := c11Case{Spec: *spec}
+	c := c11Case{Spec: *spec, Sign: sign}
 	nOps := rapid.IntRange(2, 5).Draw(t, "nops")
 	// every case renders at least 4 times so that map-order dependent differences show
-	kinds := []string{"writeto", "write", "reader", "updatereader", "tofile", "totmp", "failsink", "failprod"}
+	kinds := []string{"writeto", "write", "reader", "updatereader", "tofile", "totmp", "failsink", "failprod", "send", "send"}
 	usedFailProd := false
 	for i := 0; i < nOps; i++ {
 		k := rapid.SampledFrom(kinds).Draw(t, "op")
@@ -224,8 +338,20 @@ func c11Gen(t *rapid.T) c11Case {
 func TestC11(t *testing.T) {
 	rec := core.Rec("C11")
 	rec.Rule = "rapid draws a message program (0..3 parts, 0..2 embeds, 0..3 attachments; all file sources incl. read-seekers, files on disk, fs.FS, templates and custom writers; file encodings default/base64/8bit/7bit; 0..3 preformatted and 0..3 generic headers; Date/Message-ID/boundaries left to first use) " +
-		"and a history of 4..5 render operations over {WriteTo, Write, NewReader, UpdateReader, WriteToFile, WriteToTempFile, render into a sink failing at a drawn offset, render with one producer failing on exactly that invocation}. " +
-		"Oracle: every successful output is byte-identical to the first successful one. Non-trivial: >= 1 file or >= 2 parts, and two different output paths or a failed render in the history; distinct by (shape key, op sequence)."
-	rec.Assumptions = []string{"a sink offset beyond the output length is a successful render (not compared)", "Send as an output path is covered by C03's byte comparison, not here"}
+		"and a history of 4..5 render operations over {WriteTo, Write, NewReader, UpdateReader, WriteToFile, WriteToTempFile, Send to the reference server (payload after dot-unstuffing), render into a sink failing at a drawn offset, render with one producer failing on exactly that invocation}; one history in five is S/MIME-signed (ECDSA or RSA). " +
+		"Oracle: every successful output is byte-identical to the first successful one (Send: modulo what DATA does to any content, bare LF -> CRLF and a final CRLF; signed messages: identical top-level fields with the per-render outer boundary masked and an identical signed entity). Non-trivial: >= 1 file or >= 2 parts, and two different output paths or a failed render in the history; distinct by (shape key, op sequence)."
+	rec.Assumptions = []string{"a sink offset beyond the output length is a successful render (not compared)", "a transmitted copy is never used as the reference (transport normalisation is lossy)", "signed histories use canonical CRLF content"}
 	core.Prop[c11Case]{ID: "C11", Test: "TestC11", Gen: c11Gen, Run: c11Run}.Check(t)
+}
+
+// sessCommits returns the payloads committed so far (the server goroutine appends a transaction
+// before it answers end-of-data, so after a successful Send the commit is there).
+func sessCommits(s *refsmtp.Session) [][]byte {
+	var out [][]byte
+	for _, t := range s.TxnsSnapshot() {
+		if t.Committed {
+			out = append(out, t.Payload)
+		}
+	}
+	return out
 }
